@@ -9,10 +9,12 @@ CONSTANTS
   CachePutBeforeDbWrite = FALSE
   BulkVersionsUsesEpoch = FALSE
   FillPolicy = "always"
+  FlushIgnoresCleanFlag = TRUE
   Export = FALSE
   MaxSteps = 3
   WithReads = TRUE
   SplitReads = TRUE
+  WithExt = FALSE
 INIT MCInit
 NEXT MCNext
 VIEW View
